@@ -122,3 +122,35 @@ package fasthttp
 //@     invariant[first-still-ahead] string(value) == "close" && closeFirst(s, len(s)) ==> off(vs.b) == off(s)
 //@     invariant[last-still-ahead] string(value) == "close" && closeLast(s, len(s)) ==> len(vs.b) >= 5
 //@     decreases len(vs.b)
+
+// ---- request line (C01 boundaries, C08 memory safety) ----
+
+// nextLine splits at the first '\n': the line (without a trailing CR) and the rest after the newline, or ErrNeedMore
+// when b has no newline.
+//@ func nextLine results line rest err
+//@   property C01 C08
+//@   pure
+//@   ensures[errkinds] err == nil || err == ErrNeedMore
+//@   ensures[need-more] err != nil ==> forall k in [0, len(b)): b[k] != 10
+//@   ensures[rest-after-first-newline] err == nil ==> rgn(rest) == rgn(b) && off(rest) + len(rest) == off(b) + len(b) && len(rest) < len(b) &&
+//@                         b[len(b) - len(rest) - 1] == 10 && (forall k in [0, len(b) - len(rest) - 1): b[k] != 10)
+//@   ensures[line-before-newline] err == nil ==> rgn(line) == rgn(b) && off(line) == off(b) && len(line) <= len(b) - len(rest) - 1 && len(line) >= len(b) - len(rest) - 2
+
+// parseFirstLine: what it reports as consumed is a prefix of buf that ends exactly at the newline of the request line
+// (leading empty lines are skipped), so the header block starts at a line boundary.
+//@ func RequestHeader.parseFirstLine results n err
+//@   property C01 C08
+//@   mode skeleton
+//@   safety C08
+//@   on call isValidMethod -> ok:
+//@     nohavoc
+//@   on call isHTTPVersion -> ok:
+//@     nohavoc
+//@   on call validateRequestURI -> e:
+//@     nohavoc
+//@   end
+//@   loop 1:
+//@     invariant[rest-is-a-suffix-at-a-line-start] rgn(bNext) == rgn(buf) && off(buf) <= off(bNext) && off(bNext) + len(bNext) == off(buf) + len(buf) &&
+//@                         (off(bNext) == off(buf) || buf[off(bNext) - off(buf) - 1] == 10)
+//@     invariant[line-inside-buf] len(b) == 0 || (rgn(b) == rgn(buf) && off(buf) <= off(b) && off(b) + len(b) < off(bNext))
+//@   ensures[consumed-ends-at-newline] err == nil ==> 1 <= n && n <= len(buf) && buf[n-1] == 10
